@@ -37,7 +37,7 @@ pub fn can_empty(g: &J) -> bool {
         "just" => g[1].as_array().map_or(true, |a| a.is_empty()),
         "any" | "oneof" | "noneof" | "sel" | "tree" | "anyr" | "selr" => false,
         "end" | "empty" | "probe" | "cfgjust" | "cfgjustr" => true,
-        "cust" => g[1].as_u64() == Some(0) && g[2].as_bool() == Some(true),
+        "cust" | "ext" => g[1].as_u64() == Some(0) && g[2].as_bool() == Some(true),
         "then" | "ithen" | "theni" | "thenctx" | "ignctx" => can_empty(&g[1]) && can_empty(&g[2]),
         "delim" => can_empty(&g[1]) && can_empty(&g[2]) && can_empty(&g[3]),
         "padded" => can_empty(&g[1]),
@@ -69,7 +69,7 @@ fn wf_iter(it: &J) -> bool {
 /// Ast.tla WF
 pub fn wf(g: &J) -> bool {
     match op(g) {
-        "just" | "any" | "oneof" | "noneof" | "sel" | "end" | "empty" | "cust" | "probe" | "cfgjust" | "cfgjustr" | "ref" | "var" | "tree" | "anyr" | "selr" => true,
+        "just" | "any" | "oneof" | "noneof" | "sel" | "end" | "empty" | "cust" | "ext" | "probe" | "cfgjust" | "cfgjustr" | "ref" | "var" | "tree" | "anyr" | "selr" => true,
         "then" | "ithen" | "theni" | "or" | "andis" | "thenctx" | "ignctx" | "nested" | "padded" | "let" => wf(&g[1]) && wf(&g[2]),
         "delim" => wf(&g[1]) && wf(&g[2]) && wf(&g[3]),
         "group" | "grouparr" | "choice" | "choicev" => g[1].as_array().unwrap().iter().all(wf),
@@ -103,7 +103,7 @@ pub fn family(name: &str) -> Family {
         "peg" => Family {
             leaves: vec![j("a"), j("b"), jj("a", "b"), json!(["any"]), json!(["oneof", ["a", "b"]]), json!(["noneof", ["a"]]),
                          json!(["sel", ["a"]]), json!(["end"]), json!(["empty"]), json!(["cust", 1, true]), json!(["cust", 1, false]),
-                         j("E"), json!(["cust", 2, true])],
+                         j("E"), json!(["cust", 2, true]), json!(["ext", 1, true]), json!(["ext", 2, false])],
             unary: vec!["ornot", "not", "rewind", "ignored", "mw", "map", "to", "filter", "trymap", "rep0", "rep1", "boxed", "tospan", "toslice"],
             binary: vec!["then", "ithen", "theni", "or", "andis", "choice", "choicev", "delim", "padded", "group", "grouparr", "choice3"],
             alphabet: vec!["a", "b", "E"],
